@@ -22,6 +22,7 @@ def cases(tier):
         for n in Tb.states:
             if n.is_compo:
                 L.append(fsm_case('C13', fx, 'resume_d%d' % n.sid, ['P_C13', 'C13_RESUME', 'ENTRY=2', 'KIND=3', 'DEST=%d' % n.sid, 'CB_BUDGET=0', 'NO_CANCEL'], timeout=300 * T, witness=False))
+    mark_cover(L, ['c13.f5.imm1'])
     return L
 
 def run(tier, seed):
